@@ -868,7 +868,9 @@ def shifted_mesh(m, how, rng):
         dims = None if dims is None or len(p1) > 3 else None
         if len(p1) > 3:
             dims = [f"d{i}" for i in range(len(p1))]
-    return dict(p1=[g.qs(F(float(x))) for x in p1], p2=[g.qs(F(float(x))) for x in p2], n=n, dims=dims)
+    return dict(p1=[g.qs(F(float(x))) for x in p1], p2=[g.qs(F(float(x))) for x in p2], n=n, dims=dims,
+                units=(m.get("units") if len(p1) == len(m["p1"]) else None), ptype=m.get("ptype"),
+                ntype=m.get("ntype"))
 
 
 def reject_case(rng, tier):
@@ -1057,19 +1059,19 @@ def reuse_case(rng, tier):
 def generate(rng, tier):
     cases = []
     q = tier == "quick"
-    for _ in range(380 if q else 4200):
+    for _ in range(380 if q else 2600):
         cases.append(expr_case(rng, tier))
-    for _ in range(130 if q else 1100):
+    for _ in range(130 if q else 700):
         cases.append(commute_case(rng, tier))
-    for _ in range(30 if q else 250):
+    for _ in range(30 if q else 150):
         cases.append(stackcomp_case(rng, tier))
-    for _ in range(130 if q else 1100):
+    for _ in range(130 if q else 700):
         cases.append(reject_case(rng, tier))
-    for _ in range(70 if q else 600):
+    for _ in range(70 if q else 400):
         cases.append(malformed_case(rng, tier))
-    for _ in range(130 if q else 1100):
+    for _ in range(130 if q else 700):
         cases.append(typed_case(rng, tier))
-    for _ in range(130 if q else 1100):
+    for _ in range(130 if q else 700):
         cases.append(reuse_case(rng, tier))
     return cases
 
